@@ -340,7 +340,7 @@ _C01_NET = ('COMPOSITION (Props/C01net.lean; Model/NetSys.lean = the Sender mode
     'truthful SACKs; the payload bytes are a ghost function of the message identity of which the sender model sees the length only; toWire = header decode as chunkPayloadData.unmarshal + the byte slice '
     '[i*mp, i*mp+len) of the written payload): C01_netsys_prefix_idata (I-DATA, ANY pending-queue selection oracle) and C01_netsys_prefix (DATA; hypothesis SelContig, decidable on the run: the '
     'order in which chunks get their TSNs keeps the fragments of a message together and serves each stream FIFO - exactly what C17_contiguous + C17_fragment_order prove of the real pending queue) - '
-    'for EVERY NetSys run over reliable ordered streams (every openS ordered with relType 0, no unreg), fewer than 2^31 (I-DATA) / 2^30 (DATA) chunks written in all, and the D15 window stated on '
+    'for EVERY NetSys run over reliable ordered streams (every openS ordered with relType 0, no unreg), fewer than 2^31 chunks written in all (each gets at most one TSN), and the D15 window stated on '
     'the run (messages written on the stream at most 2^31 / 2^15 ahead of the messages read on it at every step; proved to imply the receiver theorem\'s hwin), the (PPI, bytes) the receiving '
     'application has read on each stream are a PREFIX of the (PPI, bytes) of the accepted writes on it, in write order. New sender lemmas (all runs, any SACKs/oracles, no configuration hypothesis): '
     'C01_wire_tsn_stable - the j-th chunk moved to in flight gets TSN t0+j, every occurrence of a chunk on the wire (first transmission, T3/RACK/PTO/fast retransmission) carries the TSN and fragment '
